@@ -297,8 +297,9 @@ def run(ctx):
     r3_store_kinds(ctx, pdb)
     r4_sql_values(ctx, pdb)
     c10.r3_stripped_length(ctx, [('ossl-file', po), ('botan-file', pb)], rule_id='C20.R5')
-    from rules import c13
+    from rules import c13, c05
     c13.r3_cipher_tables(ctx, po, pb, rule_id='C20.R7')
+    c05.r1d_map_accounting(ctx, po, rule_id='C20.R8')
     r6_token_flags(ctx, pdb)
 
 
